@@ -686,3 +686,54 @@ Definition resolve_cached (ns : nsmap) (c : kcache) (k : string) : option name *
   | Some q => (Some q, c)
   | None => match resolve ns k with Some q => (Some q, (k, q) :: c) | None => (None, c) end
   end.
+
+(** ** Proxy datasets (internal/server/proxydataset.go): StreamChangesRaw / StreamChanges /
+    StreamEntitiesRaw / StreamEntities fetch a page from the remote hub and run ParseStream over
+    it; every entity that is not the continuation element goes to the callback as it comes, the
+    last continuation element is kept, the parse error - wherever it occurs, before or after the
+    continuation element - is the result, and only after a successful parse the token is read:
+    [cont.Properties["token"].(string)], an unchecked assertion in the pinned tree
+    ([tok_checked] = false: panic when the token is missing or not a string). *)
+Definition is_cont_ent (e : ent) : bool := name_eqb (e_id e) (NRaw "@continuation").
+Fixpoint find_prop (k : name) (ps : list (name * pval)) : option pval :=
+  match ps with [] => None | (k', x) :: ps' => if name_eqb k k' then Some x else find_prop k ps' end.
+Definition last_cont (es : list ent) : option ent := last (map Some (filter is_cont_ent es)) None.
+
+Definition proxy_page (v : variant) (tok_checked : bool) (fuel : nat) (eof : bool) (ts : list token)
+  : res string * list ent :=
+  let '(es, o, _) := parse_stream v fuel eof ts in
+  (match o with
+   | OOk =>
+     match last_cont es with
+     | None => Ok ""
+     | Some c =>
+       match find_prop (NRaw "token") (e_props c) with
+       | Some (VStr s) => Ok s
+       | _ => if tok_checked then Err else Panic
+       end
+     end
+   | OErr => Err | OPanic => Panic | OFuel => Fuel
+   end, filter (fun e => negb (is_cont_ent e)) es).
+
+(** ** The namespace table (NamespaceManager.AssertPrefixMappingForExpansion + restart).
+    [nt_mem] = the in-memory table (prefix "ns<i>" = position i), [nt_disk] = what StoreObject
+    persisted.  The pinned tree inserts, then persists ([persist_first] = false); persisting
+    before inserting writes the table WITHOUT the new prefix. *)
+Record nstab := { nt_mem : list string; nt_disk : list string }.
+Inductive nsop := NsAssert (e : string) | NsRestart.
+Fixpoint index_of (e : string) (l : list string) : option nat :=
+  match l with
+  | [] => None
+  | x :: l' => if String.eqb e x then Some O else match index_of e l' with Some i => Some (S i) | None => None end
+  end.
+Definition ns_step (persist_first : bool) (t : nstab) (op : nsop) : nstab :=
+  match op with
+  | NsAssert e =>
+    match index_of e (nt_mem t) with
+    | Some _ => t
+    | None => {| nt_mem := nt_mem t ++ [e]; nt_disk := if persist_first then nt_mem t else nt_mem t ++ [e] |}
+    end
+  | NsRestart => {| nt_mem := nt_disk t; nt_disk := nt_disk t |}
+  end.
+Definition ns_run (persist_first : bool) (t : nstab) (ops : list nsop) : nstab :=
+  fold_left (ns_step persist_first) ops t.
